@@ -67,7 +67,7 @@ type auditItem struct {
 //	cron       LOGIN record + events, but no accepted sshd login for PID               -> silent
 //	login-only accepted sshd login, no audit records at all                            -> UserLogin only
 //	console    events carrying ses=Ses but no LOGIN record (sshd login optional)       -> silent
-//	unset      records with ses=4294967295 only                                       -> silent
+//	unset      records with ses=4294967295 only, a LOGIN record among them (sshd login optional) -> silent
 type sessionPlan struct {
 	Kind  string `json:"kind"`
 	PID   int    `json:"pid"`
@@ -318,6 +318,10 @@ func genScenario(r *hutil.Rand) *scenario {
 			for k := 1 + r.Intn(4); k > 0; k-- {
 				audit = append(audit, au("pre", hutil.Pick(r, append(append([]string{}, preTypes...), "EXECVE", "USER_CMD")), sp.PID, unsetSes, i, user))
 			}
+			if r.Bool() { // even a LOGIN record opens no session when its session id is unset
+				k := r.Intn(len(audit) + 1)
+				audit = append(audit[:k], append([]*protoItem{au("pre", "LOGIN", sp.PID, unsetSes, i, user)}, audit[k:]...)...)
+			}
 		}
 		// the sshd side of the session: failed attempts of the same sshd process first, then the accepted line
 		var sshdSide []*protoItem
@@ -327,7 +331,7 @@ func genScenario(r *hutil.Rand) *scenario {
 				sshdSide = append(sshdSide, &protoItem{sshd: &it})
 			}
 		}
-		hasLogin := kind == "full" || kind == "login-only" || (kind == "console" && r.Bool())
+		hasLogin := kind == "full" || kind == "login-only" || ((kind == "console" || kind == "unset") && r.Bool())
 		var loginItem *protoItem
 		if hasLogin {
 			it := genSshd(r, acceptedKind(), sp.PID, i, user)
